@@ -157,6 +157,7 @@ def extras(ctx):
   tuple_sweep(ctx)
   scope_sweep(ctx)
   special_sweep(ctx)
+  primed_sweep(ctx)
 
 # ----------------------------------------------------------------------------------------------------
 # Oracle-only sweeps over values the SymCore model does not contain.
@@ -205,10 +206,19 @@ def _mutate_everything(x, _seen=None):
     for _, v in kids: _mutate_everything(v, _seen)
     with P.as_sealed(False), P.allow_writable_accessors(True):
       if isinstance(x, P.List): x.append(4242)
-      elif isinstance(x, P.Dict): x['zz_mut'] = 4242
+      elif isinstance(x, P.Dict):
+        try:
+          x['zz_mut'] = 4242
+        except KeyError:            # a typed dict: change a declared key instead
+          for k, v in kids:
+            if isinstance(v, int) and not isinstance(v, bool): x[k] = v + 4242; break
       else:
         for k, v in kids:
-          if not D.is_sym(v) and not isinstance(v, (tuple, list, dict)): x.rebind({k: 4242}); break
+          if not D.is_sym(v) and not isinstance(v, (tuple, list, dict)):
+            try:
+              x.rebind({k: 4242}); break
+            except (TypeError, ValueError):     # a typed field that does not take an int
+              continue
   elif isinstance(x, tuple):
     for v in x: _mutate_everything(v, _seen)
   elif isinstance(x, list):
@@ -461,6 +471,163 @@ def special_sweep(ctx):
                                     'the other, schema binding of primitives inside copied parents')
   ctx.log('special-node sweep (oracle only): %d cases' % n)
 
+# ----------------------------------------------------------------------------------------------------
+# The QUERY PATTERN is part of the case (oracle only).  Derived facts of a node -- sym_nondefault / sym_missing / non_default_values / missing_values,
+# sym_puresymbolic, is_partial, sym_hash, ... -- are cached; a copy must neither inherit what the original computed nor hand out the original's
+# nodes.  For every value x priming of the ORIGINAL (no query / root only / every node) x copy route:
+#   * everything the copy's derived-fact getters hand out (descending through dicts / lists / tuples) is identity-disjoint from the nodes of the
+#     original (deep copies: from every mutable object of the original);
+#   * the getters of the copy report what the getters of a copy of an UNPRIMED twin report;
+#   * mutating everything below the original does not change what the copy's getters report, and vice versa;
+#   * rebinding a node handed out by a getter of the copy does not change the original.
+_PRIMED = []
+def primed_classes():
+  if not _PRIMED:
+    P = D.pg()
+    T = P.typing
+    @P.members([('v', T.Int()), ('o', T.Any(default=None))])
+    class C07Inner(P.Object):
+      pass
+    @P.members([('inner', T.Object(C07Inner)), ('tags', T.List(T.Any(), default=[])), ('d', T.Dict([('k', T.Int(default=0)), ('l', T.List(T.Int(), default=[]))])),
+                ('leaf', T.Any(default=None)), ('opt', T.Object(C07Inner).noneable())])
+    class C07Outer(P.Object):
+      pass
+    _PRIMED.extend([C07Inner, C07Outer])
+  return _PRIMED
+
+def primed_values():
+  P = D.pg()
+  Inner, Outer = primed_classes()
+  A, B, C = D.classes()
+  yield 'typed-object', lambda: Outer(inner=Inner(v=1, o=D.Opq(1)), tags=['a', P.Dict(t=1)], d=dict(k=2, l=[1]), leaf=D.Opq(2))
+  yield 'typed-object-partial', lambda: Outer.partial(inner=Inner.partial(o=[1]), tags=[Inner(v=3)])
+  yield 'dict-of-typed', lambda: P.Dict(m=Outer(inner=Inner(v=1), tags=[[1]], leaf=[D.Opq(3)]), u=[Inner(v=2, o=P.Dict(z=1))])
+  yield 'list-of-typed', lambda: P.List([Outer(inner=Inner(v=1, o=P.List([D.Opq(4)]))), Inner(v=5)])
+  yield 'typed-dict', lambda: P.Dict(k=3, l=[1, 2], value_spec=P.typing.Dict([('k', P.typing.Int(default=0)), ('l', P.typing.List(P.typing.Int(), default=[])), ('m', P.typing.Any(default=None))]))
+  yield 'untyped', lambda: P.Dict(a=P.Dict(b=D.Opq(5)), l=P.List([A(x=P.Dict(q=1), y=[D.Opq(6)]), [2]]))
+  yield 'object-of-objects', lambda: B(x=A(x=P.Dict(a=1)), y=Outer(inner=Inner(v=1)), z=[Inner(v=2, o=D.Opq(7))])
+
+FACT_GETTERS = [
+    ('sym_nondefault()', lambda n: n.sym_nondefault()), ('sym_nondefault(flatten=False)', lambda n: n.sym_nondefault(flatten=False)),
+    ('sym_missing()', lambda n: n.sym_missing()), ('sym_missing(flatten=False)', lambda n: n.sym_missing(flatten=False)),
+    ('non_default_values()', lambda n: n.non_default_values()), ('missing_values()', lambda n: n.missing_values()),
+    ('sym_puresymbolic', lambda n: n.sym_puresymbolic), ('sym_partial', lambda n: n.sym_partial), ('is_partial', lambda n: n.is_partial),
+    ('sym_abstract', lambda n: n.sym_abstract), ('is_deterministic', lambda n: n.is_deterministic), ('sym_hash()', lambda n: n.sym_hash()),
+]
+def _facts(x, nodes_too=False):
+  """{getter name: value} for the root (and, when asked, for every node); getters that raise are recorded by the exception class."""
+  out = {}
+  targets = [('', x)]
+  if nodes_too:
+    targets = []
+    D.walk(x, lambda n, p, k: targets.append((str(n.sym_path), n)))
+  for tl, n in targets:
+    for name, g in FACT_GETTERS:
+      try:
+        out[(tl, name)] = g(n)
+      except Exception as e:      # pylint: disable=broad-except
+        out[(tl, name)] = ('raises', type(e).__name__)
+  return out
+
+def _facts_view(f):
+  return sorted((k, deep_view(v) if not isinstance(v, int) or isinstance(v, bool) else ('int', v)) for k, v in f.items() if k[1] != 'sym_hash()')
+
+def _handed_out(f, out=None):
+  """Every mutable object (symbolic nodes, plain containers, opaque leaves) reachable from what the getters returned."""
+  out = {}
+  for v in f.values():
+    mutables(v, out)
+  return out
+
+PRIMINGS = {'no query': lambda x: None, 'root queried': lambda x: _facts(x), 'every node queried': lambda x: _facts(x, True)}
+
+def primed_probe(c):
+  P = D.pg()
+  make = dict(primed_values())[c['value']]
+  how = c['how']
+  deep = how in DEEP_COPIES
+  cp = (DEEP_COPIES if deep else SHALLOW_COPIES)[how]
+  prime = PRIMINGS[c['priming']]
+  dk = 'deep copy' if deep else 'shallow copy'
+  out = []
+  a = make(); prime(a)
+  b = cp(a)
+  if not P.eq(a, b): out.append(('C07/not-equal/%s/after-queries' % dk, 'pg.eq(original, copy) is False for %s (%s)' % (c['value'], c['priming'])))
+  fb = _facts(b, True)
+  # identity: nothing the copy hands out belongs to the original
+  anodes = {}
+  D.walk(a, lambda n, p, k: anodes.__setitem__(id(n), n))
+  amut = mutables(a)
+  handed = _handed_out(fb)
+  bad_nodes = [i for i in handed if i in anodes]
+  if bad_nodes:
+    n = anodes[bad_nodes[0]]
+    which = [k for k, v in fb.items() if bad_nodes[0] in mutables(v)][0]
+    out.append(('C07/derived-fact-hands-out-original-node/%s/%s' % (dk, which[1].split('(')[0]),
+                '%s of %s (%s): %s of the copy%s hands out the %s at %r OF THE ORIGINAL' % (how, c['value'], c['priming'], which[1], ' node at %r' % which[0] if which[0] else '', type(n).__name__, str(n.sym_path))))
+  elif deep:
+    shared = [i for i in handed if i in amut]
+    if shared:
+      which = [k for k, v in fb.items() if shared[0] in mutables(v)][0]
+      out.append(('C07/derived-fact-shares-mutable/deep copy/%s' % which[1].split('(')[0],
+                  '%s of %s (%s): %s of the copy hands out a %s object of the original' % (how, c['value'], c['priming'], which[1], type(amut[shared[0]]).__name__)))
+  # the copy reports what a copy of an unprimed twin reports
+  fresh = cp(make())
+  if _facts_view(fb) != _facts_view(_facts(fresh, True)):
+    d = [k for (k, x), (k2, y) in zip(_facts_view(fb), _facts_view(_facts(fresh, True))) if x != y]
+    out.append(('C07/derived-fact-differs/%s/%s' % (dk, d[0][1].split('(')[0] if d else '-'),
+                '%s of %s (%s): the copy reports %s differently from a copy of a twin that was never queried' % (how, c['value'], c['priming'], d[:3])))
+  # independence of what is reported
+  if not out:
+    a1 = make(); prime(a1); b1 = cp(a1); v0 = _facts_view(_facts(b1, True))
+    _mutate_everything(a1)
+    v1 = _facts_view(_facts(b1, True))
+    if v1 != v0 and deep:
+      d = [k for (k, x), (k2, y) in zip(v0, v1) if x != y]
+      out.append(('C07/mutation-visible/deep copy/original-to-copy-derived-facts', 'after mutating everything below the original %s (%s) the copy reports %s differently' % (c['value'], c['priming'], d[:3])))
+    elif not deep:
+      # a shallow copy shares leaf objects: mutate only the symbolic containers of the original
+      a3 = make(); prime(a3); b3 = cp(a3); v0 = _facts_view(_facts(b3, True))
+      with P.as_sealed(False), P.allow_writable_accessors(True):
+        for n in list(_special_nodes(a3)):
+          if isinstance(n, P.List): n.append(4242)
+          elif isinstance(n, P.Dict) and n.value_spec is None: n['zz_mut'] = 4242
+      v1 = _facts_view(_facts(b3, True))
+      if v1 != v0:
+        d = [k for (k, x), (k2, y) in zip(v0, v1) if x != y]
+        out.append(('C07/mutation-visible/shallow copy/original-to-copy-derived-facts', 'after adding an item to every container of the original %s (%s) the copy reports %s differently' % (c['value'], c['priming'], d[:3])))
+    a2 = make(); prime(a2); b2 = cp(a2); prime(b2); va = deep_view(a2)
+    # rebinding what a getter of the copy hands out must not reach the original
+    with P.as_sealed(False), P.allow_writable_accessors(True):
+      for v in list(_handed_out(_facts(b2, True)).values()):
+        try:
+          if isinstance(v, P.List): v.append(777)
+          elif isinstance(v, P.Dict) and v.value_spec is None: v['zz_handed'] = 777
+          elif isinstance(v, P.Object) and v.sym_hasattr('o'): v.rebind(o=777)
+          elif deep and isinstance(v, D.Opq): v.tag += 5000
+        except Exception:      # pylint: disable=broad-except
+          pass
+    if deep_view(a2) != va:
+      out.append(('C07/mutation-visible/%s/through-derived-facts-of-copy' % dk, 'changing what the derived-fact getters of the copy of %s (%s) hand out changes the original' % (c['value'], c['priming'])))
+  return out
+
+def primed_sweep(ctx):
+  import time
+  t0 = time.time()
+  n = 0
+  for vname, _ in primed_values():
+    for pr in PRIMINGS:
+      for how in list(DEEP_COPIES) + list(SHALLOW_COPIES):
+        c = dict(kind='primed', value=vname, priming=pr, how=how)
+        n += 1
+        ctx.evaluations += 1
+        for sig, what in primed_probe(c):
+          ctx.hit(sig, what, c)
+  ctx.extra['primed_sweep'] = dict(oracle_only=True, cases=n, getters=[g for g, _ in FACT_GETTERS], primings=sorted(PRIMINGS),
+                                   what='derived facts queried on the original (not at all / root / every node) before each copy route; what the copy\'s getters hand out is identity-disjoint from the '
+                                        'original, equals what a copy of a never-queried twin reports, does not move when the original is mutated, and cannot be used to change the original')
+  ctx.log('primed-query sweep (oracle only): %d cases in %.1fs' % (n, time.time() - t0))
+
 # clones made inside scopes keep the flags of every node (typed children included: they are re-applied by the constructor)
 _TYPED = None
 def typed_classes():
@@ -543,6 +710,8 @@ def replay(ctx, rp):
     return not scope_probe(rp['case'])
   if rp.get('case', {}).get('kind') == 'special':
     return not special_probe(rp['case'])
+  if rp.get('case', {}).get('kind') == 'primed':
+    return not primed_probe(rp['case'])
   return D.replay_property(ctx, rp, Oracle)
 
 # ----------------------------------------------------------------------------------------------------
